@@ -348,6 +348,9 @@ func (bucket *Bucket) expireDocuments() (int64, error) {
 	var count int64
 	for _, name := range names {
 		if coll, err := bucket.getCollection(name.(sgbucket.DataStoreNameImpl)); err != nil {
+			if _, dropped := err.(sgbucket.MissingError); dropped {
+				continue // the collection was dropped after it was listed; its documents are gone
+			}
 			return 0, err
 		} else if n, err := coll.expireDocuments(); err != nil {
 			return 0, err
